@@ -1,5 +1,285 @@
-import Nv.Model.C20
+import Nv.Proofs.C20Byte
+import Nv.Proofs.C20B64
+/-!
+C20 — property theorems for the `tex` scalar wrappers (model `Nv.Model.C20`, reference `Nv.Spec.C20`).
+Every statement quantifies over all byte strings / all values of the type; the configuration `c`
+ranges over `Proved` (quotes checked before slicing, elements range-checked). For today's
+configuration (`Cfg.today`) the witnesses at the end show the property is false.
+-/
 namespace Nv.C20
-/-- today's JsUInt64: the bare JSON number `123` decodes to 2 -/
+
+/-! ### strconv: exactly the denoted number, or an error (never dropped digits, never wrap) -/
+
+/-- `Atoi` (= `ParseInt(s,10,64)`) sound: a result is the value of sign + digits, inside int64 -/
+theorem parse_int_exact (s : Bytes) (v : Int) (h : atoi s = .ok v) :
+    denotesCore s v ∧ -(2 ^ 63 : Int) ≤ v ∧ v < 2 ^ 63 :=
+  denotesCore_of_parseInt (bits := 64) h
+
+/-- … complete: every denoted number inside int64 is returned -/
+theorem parse_int_complete (s : Bytes) (v : Int) (hd : denotesCore s v) (hlo : -(2 ^ 63 : Int) ≤ v) (hhi : v < 2 ^ 63) :
+    atoi s = .ok v :=
+  parseInt_of_denotesCore (bits := 64) (by omega) hd hlo hhi
+
+/-- … and a denoted number outside int64 is a range error, never a wrapped value -/
+theorem parse_int_never_wraps (s : Bytes) (v : Int) (hd : denotesCore s v) (hout : v < -(2 ^ 63 : Int) ∨ 2 ^ 63 ≤ v) :
+    atoi s = .err .range :=
+  parseInt_range_of_denotesCore (bits := 64) (by omega) hd hout
+
+/-- `ParseUint(s,10,64)`: all digits, exact value, below 2^64 -/
+theorem parse_uint_exact (s : Bytes) (n : Nat) (h : parseUint 10 64 s = .ok n) : DecDigits s ∧ n = decVal s ∧ n < 2 ^ 64 :=
+  parseUint10_ok h
+
+theorem parse_uint_complete (s : Bytes) (hd : DecDigits s) (hv : decVal s < 2 ^ 64) : parseUint 10 64 s = .ok (decVal s) :=
+  parseUint10_complete hd hv
+
+theorem parse_uint_never_wraps (s : Bytes) (hd : DecDigits s) (hv : 2 ^ 64 ≤ decVal s) : parseUint 10 64 s = .err .range :=
+  parseUint10_overflow hd hv
+
+/-- hex / base-32 parse: sign + digits of the base, exact value, inside int64 -/
+theorem hex_parse_exact (base : Nat) (s : Bytes) (v : Int) (h : parseInt base 64 s = .ok v) :
+    ∃ (neg : Bool) (t : Bytes), (s = t ∨ s = 43 :: t ∨ s = 45 :: t) ∧ (neg = true ↔ s = 45 :: t) ∧ t ≠ [] ∧
+      BaseDigits base t ∧ v = (if neg then -(baseVal base 0 t : Int) else (baseVal base 0 t : Int)) ∧
+      -(2 ^ 63 : Int) ≤ v ∧ v < 2 ^ 63 :=
+  parseInt_ok base 64 h
+
+/-! ### exact-or-error: for EVERY byte string (so for every JSON token) -/
+
+/-- generic form: an integer wrapper that checks its quotes decodes `b` to `v` only if `b` denotes `v` -/
+theorem unmarshal_exact_or_error (w : Wrap) (hw : w.Checked) (hp : w.parser = .atoi ∨ w.parser = .parseUint64)
+    (b : Bytes) (v : Int) (h : decodeInt w b = .ok v) : denotes b v :=
+  (decodeInt_exact hw hp h).1
+
+theorem i64_exact_or_error (c : Cfg) (hc : Proved c) (b : Bytes) (v : Int) (h : decodeInt c.i64 b = .ok v) :
+    denotes b v ∧ -(2 ^ 63 : Int) ≤ v ∧ v < 2 ^ 63 := by
+  have hp : c.i64.parser = .atoi := hc.2.2.2.2.2.2.2.1
+  have := decodeInt_exact hc.1 (Or.inl hp) h
+  refine ⟨this.1, this.2.1, ?_⟩
+  -- the signed parser keeps the value inside int64
+  unfold decodeInt at h
+  split at h
+  · cases h
+  · cases h
+  · rw [hp] at h; exact (denotesCore_of_parseInt (bits := 64) (by simpa [runParser, atoi] using h)).2.2
+  · split at h
+    · simp only [Res.ok.injEq] at h; omega
+    · rw [hp] at h; exact (denotesCore_of_parseInt (bits := 64) (by simpa [runParser, atoi] using h)).2.2
+
+theorem u64_exact_or_error (c : Cfg) (hc : Proved c) (b : Bytes) (v : Int) (h : decodeInt c.u64 b = .ok v) :
+    denotes b v ∧ 0 ≤ v ∧ v < 2 ^ 64 := by
+  have hp : c.u64.parser = .parseUint64 := hc.2.2.2.2.2.2.2.2.1
+  have := decodeInt_exact hc.2.1 (Or.inr hp) h
+  refine ⟨this.1, ?_, this.2.2⟩
+  unfold decodeInt at h
+  split at h
+  · cases h
+  · cases h
+  · rw [hp] at h; obtain ⟨n, _, hv⟩ := toIntRes_ok (by simpa [runParser] using h); omega
+  · split at h
+    · simp only [Res.ok.injEq] at h; omega
+    · rw [hp] at h; obtain ⟨n, _, hv⟩ := toIntRes_ok (by simpa [runParser] using h); omega
+
+theorem unixtime_exact_or_error (c : Cfg) (hc : Proved c) (b : Bytes) (v : Int) (h : decodeInt c.unixTime b = .ok v) :
+    denotes b v :=
+  unmarshal_exact_or_error _ hc.2.2.2.1 (Or.inl hc.2.2.2.2.2.2.2.2.2.2.1) b v h
+
+theorem nanotime_exact_or_error (c : Cfg) (hc : Proved c) (b : Bytes) (v : Int) (h : decodeInt c.nanoTime b = .ok v) :
+    denotes b v :=
+  unmarshal_exact_or_error _ hc.2.2.2.2.1 (Or.inl hc.2.2.2.2.2.2.2.2.2.2.2.1) b v h
+
+theorem stamp_exact_or_error (c : Cfg) (hc : Proved c) (b : Bytes) (v : Int) (h : decodeInt c.stamp b = .ok v) :
+    denotes b v :=
+  unmarshal_exact_or_error _ hc.2.2.2.2.2.1 (Or.inl hc.2.2.2.2.2.2.2.2.2.2.2.2.1) b v h
+
+/-- JsByte: a decoded list is exactly the denoted list -/
+theorem jsbyte_exact_or_error (c : Cfg) (hc : Proved c) (b : Bytes) (l : List Nat)
+    (h : decodeBytes c.byte c.byteConv b = .ok l) : denotesBytes b l := by
+  have hk : c.byteConv = .rangeChecked := hc.2.2.2.2.2.2.2.2.2.2.2.2.2.2.1
+  rw [hk] at h
+  exact decodeBytes_exact hc.2.2.1 h
+
+/-- JsByte: no element is a wrapped value — each is the denoted number itself and lies in 0…255 -/
+theorem jsbyte_no_wrap (c : Cfg) (hc : Proved c) (b : Bytes) (l : List Nat)
+    (h : decodeBytes c.byte c.byteConv b = .ok l) : ∀ x ∈ l, x ≤ 255 := by
+  rcases jsbyte_exact_or_error c hc b l h with ⟨s, _, hd⟩ | hd <;>
+  · rcases hd with ⟨_, rfl⟩ | ⟨_, hr⟩
+    · intro x hx; cases hx
+    · exact listRel_le_255 hr
+
+/-- Duration: only a quoted (or entirely bare) text is handed to `ParseDuration` — never a slice of something else -/
+theorem dur_exact_or_error (c : Cfg) (hc : Proved c) (b : Bytes) (d : Int) (h : decodeDur c.dur b = .ok d) :
+    (∃ s, b = 34 :: (s ++ [34]) ∧ parseDuration s = .ok d) ∨ parseDuration b = .ok d := by
+  have hw : c.dur.Checked := hc.2.2.2.2.2.2.1
+  unfold decodeDur at h
+  split at h
+  · cases h
+  · split at h
+    · cases h
+    · cases h
+    · rename_i s hs
+      have := strip_checked_bare hw hs
+      subst this
+      exact Or.inr h
+    · rename_i s hs
+      exact Or.inl ⟨s, strip_checked_quoted hw hs, h⟩
+
+/-! ### round trips: decoding the encoder's output gives back the value (all values, extremes included) -/
+
+theorem i64_roundtrip (c : Cfg) (hc : Proved c) (v : Int) (hlo : -(2 ^ 63 : Int) ≤ v) (hhi : v < 2 ^ 63) :
+    decodeInt c.i64 (encodeInt v) = .ok v :=
+  decodeInt_encodeInt _ (by rcases hc.1 with h | h <;> simp [h]) hc.2.2.2.2.2.2.2.2.2.2.2.2.2.2.2.1
+    hc.2.2.2.2.2.2.2.1 v hlo hhi
+
+theorem u64_roundtrip (c : Cfg) (hc : Proved c) (n : Nat) (hn : n < 2 ^ 64) :
+    decodeInt c.u64 (encodeNat n) = .ok (n : Int) :=
+  decodeInt_encodeNat _ (by rcases hc.2.1 with h | h <;> simp [h]) hc.2.2.2.2.2.2.2.2.2.2.2.2.2.2.2.2.1
+    hc.2.2.2.2.2.2.2.2.1 n hn
+
+/-- JsUnixTime over unix seconds (`time.Unix(s,0).Unix() = s` is the modelled library law) -/
+theorem unixtime_roundtrip (c : Cfg) (hc : Proved c) (v : Int) (hlo : -(2 ^ 63 : Int) ≤ v) (hhi : v < 2 ^ 63) :
+    decodeInt c.unixTime (encodeInt v) = .ok v :=
+  decodeInt_encodeInt _ (by rcases hc.2.2.2.1 with h | h <;> simp [h]) hc.2.2.2.2.2.2.2.2.2.2.2.2.2.2.2.2.2.1
+    hc.2.2.2.2.2.2.2.2.2.2.1 v hlo hhi
+
+/-- JsNanoTime over unix nanoseconds -/
+theorem nanotime_roundtrip (c : Cfg) (hc : Proved c) (v : Int) (hlo : -(2 ^ 63 : Int) ≤ v) (hhi : v < 2 ^ 63) :
+    decodeInt c.nanoTime (encodeInt v) = .ok v :=
+  decodeInt_encodeInt _ (by rcases hc.2.2.2.2.1 with h | h <;> simp [h]) hc.2.2.2.2.2.2.2.2.2.2.2.2.2.2.2.2.2.2.1
+    hc.2.2.2.2.2.2.2.2.2.2.2.1 v hlo hhi
+
+theorem stamp_roundtrip (c : Cfg) (hc : Proved c) (v : Int) (hlo : -(2 ^ 63 : Int) ≤ v) (hhi : v < 2 ^ 63) :
+    decodeInt c.stamp (encodeInt v) = .ok v :=
+  decodeInt_encodeInt _ (by rcases hc.2.2.2.2.2.1 with h | h <;> simp [h]) hc.2.2.2.2.2.2.2.2.2.2.2.2.2.2.2.2.2.2.2.1
+    hc.2.2.2.2.2.2.2.2.2.2.2.2.1 v hlo hhi
+
+/-- JsByte, every list of bytes (empty and one-element lists included) -/
+theorem jsbyte_roundtrip (c : Cfg) (hc : Proved c) (l : List Nat) (hl : ∀ x ∈ l, x < 256) :
+    decodeBytes c.byte c.byteConv (encodeBytes l) = .ok l :=
+  decodeBytes_encodeBytes _ (by rcases hc.2.2.1 with h | h <;> simp [h]) hc.2.2.2.2.2.2.2.2.2.2.2.2.2.2.2.2.2.2.2.2.1
+    hc.2.2.2.2.2.2.2.2.2.1 _ (Or.inr hc.2.2.2.2.2.2.2.2.2.2.2.2.2.2.1) l hl
+
+/-- the round trips also hold of today's (unrepaired) wrappers: the defect is in what ELSE they accept -/
+theorem u64_roundtrip_today (n : Nat) (hn : n < 2 ^ 64) : decodeInt Cfg.today.u64 (encodeNat n) = .ok (n : Int) :=
+  decodeInt_encodeNat _ (by decide) (by decide) rfl n hn
+
+theorem jsbyte_roundtrip_today (l : List Nat) (hl : ∀ x ∈ l, x < 256) :
+    decodeBytes Cfg.today.byte Cfg.today.byteConv (encodeBytes l) = .ok l :=
+  decodeBytes_encodeBytes _ (by decide) (by decide) rfl _ (Or.inl rfl) l hl
+
+/-- Base64Bytes: `Scan(Value(bs)) = bs` for every byte string -/
+theorem base64_roundtrip (bs : Bytes) (h : ∀ x ∈ bs, x < 256) : b64Decode (b64Encode bs) = .ok bs :=
+  b64Decode_encode bs h
+
+/-- hex (base 16) and base-32 integer strings, unsigned and signed -/
+theorem hex_roundtrip_u16 (n : Nat) (hn : n < 2 ^ 64) : parseUint 16 64 (fmtNat 16 n) = .ok n :=
+  parseUint_fmtNat 16 (by omega) (by omega) n hn
+theorem hex_roundtrip_u32 (n : Nat) (hn : n < 2 ^ 64) : parseUint 32 64 (fmtNat 32 n) = .ok n :=
+  parseUint_fmtNat 32 (by omega) (by omega) n hn
+theorem hex_roundtrip_i16 (v : Int) (hlo : -(2 ^ 63 : Int) ≤ v) (hhi : v < 2 ^ 63) : parseInt 16 64 (fmtInt 16 v) = .ok v :=
+  parseInt_fmtInt 16 (by omega) (by omega) v hlo hhi
+theorem hex_roundtrip_i32 (v : Int) (hlo : -(2 ^ 63 : Int) ≤ v) (hhi : v < 2 ^ 63) : parseInt 32 64 (fmtInt 32 v) = .ok v :=
+  parseInt_fmtInt 32 (by omega) (by omega) v hlo hhi
+
+/-- SQL forms: `Scan(Value(x)) = x` (integer instants; `time.Unix` / `Unix()` are the modelled library) -/
+theorem sql_unixnano_roundtrip (v : Int) : scanTs (.i64 v) = v := rfl
+theorem sql_stamp_roundtrip (old v : Int) : scanStamp old (.time v) = v := rfl
+
+/-
+Duration round trip — FULL STATEMENT (not proved; what is missing is the lemma
+`∀ d, -2^63 ≤ d → d < 2^63 → parseDuration (durString d) = .ok d` about the hand-written models of
+`time.Duration.String` / `time.ParseDuration`):
+
+  theorem dur_roundtrip (c : Cfg) (hc : Proved c) (d : Int) (hlo : -(2^63 : Int) ≤ d) (hhi : d < 2^63) :
+      decodeDur c.dur (encodeDur d) = .ok d
+
+Proved below relative to that law; the law is checked by `decide` on the extremes and by the correspondence.
+-/
+theorem dur_roundtrip_partial (c : Cfg) (hc : Proved c) (d : Int)
+    (law : parseDuration (durString d) = .ok d) (hlen : 2 ≤ (durString d).length) :
+    decodeDur c.dur (encodeDur d) = .ok d := by
+  have hk : c.dur.kind ≠ .unknown := by rcases hc.2.2.2.2.2.2.1 with h | h <;> simp [h]
+  have hp : c.dur.parser = .parseDuration := hc.2.2.2.2.2.2.2.2.2.2.2.2.2.1
+  have hm : c.dur.minLen ≤ 4 := hc.2.2.2.2.2.2.2.2.2.2.2.2.2.2.2.2.2.2.2.2.2
+  unfold decodeDur encodeDur
+  simp only [quote, hp, ne_eq, not_true_eq_false, if_false]
+  rw [strip_quoted c.dur hk _ (by omega)]
+  exact law
+
+/-! ### non-vacuity -/
+
+example : Proved Cfg.repaired := by decide
+example : ¬ Proved Cfg.today := by decide
+example : decodeInt Cfg.repaired.u64 [34, 49, 50, 51, 34] = .ok 123 := by decide          -- "123"
+example : decodeInt Cfg.repaired.u64 [49, 50, 51] = .err .invalid := by decide            -- 123 (bare) is refused
+example : denotes [34, 45, 49, 50, 34] (-12) :=                                            -- "-12"
+  Or.inl ⟨[45, 49, 50], rfl, Or.inl (Or.inr (Or.inr ⟨[49, 50], rfl, ⟨by simp, by decide⟩, by decide⟩))⟩
+example : decodeBytes Cfg.repaired.byte .rangeChecked [34, 51, 48, 48, 47, 45, 49, 34] = .err .byteRange := by decide  -- "300/-1"
+example : decodeBytes Cfg.repaired.byte .rangeChecked [34, 55, 47, 50, 53, 53, 34] = .ok [7, 255] := by decide    -- "7/255"
+example : parseDuration (durString 0) = .ok 0 := by decide
+example : parseDuration (durString 1500) = .ok 1500 := by decide
+example : parseDuration (durString (-90000000001)) = .ok (-90000000001) := by decide
+
+/-! ### today's configuration: the property is false (each witness is also the replay on the Go side) -/
+
+/-- JsUInt64: the bare JSON number `123` decodes to 2 -/
 theorem witness_u64_bare_123 : decodeInt Cfg.today.u64 [49, 50, 51] = .ok 2 := by decide
+/-- JsUInt64: `-123` decodes to 12 -/
+theorem witness_u64_bare_neg123 : decodeInt Cfg.today.u64 [45, 49, 50, 51] = .ok 12 := by decide
+/-- JsUnixTime / JsNanoTime / UnixStamp: `123` decodes to 2 -/
+theorem witness_unixtime_bare_123 : decodeInt Cfg.today.unixTime [49, 50, 51] = .ok 2 := by decide
+theorem witness_nanotime_bare_123 : decodeInt Cfg.today.nanoTime [49, 50, 51] = .ok 2 := by decide
+theorem witness_stamp_bare_123 : decodeInt Cfg.today.stamp [49, 50, 51] = .ok 2 := by decide
+/-- Duration: the bare number `105` decodes to the zero duration -/
+theorem witness_dur_bare_105 : decodeDur Cfg.today.dur [49, 48, 53] = .ok 0 := by decide
+/-- JsByte: the quoted list 300,-1 (slash-separated) decodes to [44, 255] (elements wrapped) -/
+theorem witness_byte_wrap : decodeBytes Cfg.today.byte Cfg.today.byteConv [34, 51, 48, 48, 47, 45, 49, 34] = .ok [44, 255] := by
+  decide
+/-- JsByte: the bare number `12` decodes to the empty list -/
+theorem witness_byte_bare_12 : decodeBytes Cfg.today.byte Cfg.today.byteConv [49, 50] = .ok [] := by decide
+
+theorem not_denotes_123_2 : ¬ denotes [49, 50, 51] 2 := by
+  intro h
+  rcases h with ⟨s, hs, _⟩ | h
+  · simp at hs
+  · rcases h with ⟨_, hv⟩ | ⟨t, ht, _⟩ | ⟨t, ht, _⟩
+    · simp [decVal] at hv
+    · simp at ht
+    · simp at ht
+
+/-- exact-or-error is false of today's JsUInt64 -/
+theorem not_exact_or_error_today : ¬ (∀ b v, decodeInt Cfg.today.u64 b = .ok v → denotes b v) :=
+  fun h => not_denotes_123_2 (h _ _ witness_u64_bare_123)
+
+/-- no-wrap is false of today's JsByte -/
+theorem not_no_wrap_today : ¬ (∀ b l, decodeBytes Cfg.today.byte Cfg.today.byteConv b = .ok l → ∀ x ∈ l, x ≤ 255 ∧ denotesBytes b l) := by
+  intro h
+  have := (h _ _ witness_byte_bare_12)
+  -- the empty result is fine element-wise; use the wrapped witness for the denotation
+  have hw := (h _ _ witness_byte_wrap) 44 (by simp)
+  rcases hw.2 with ⟨s, hs, hd⟩ | hd
+  · have hs' : s = [51, 48, 48, 47, 45, 49] := by
+      have := congrArg inner hs
+      rw [inner_quoted] at this
+      exact this.symm
+    subst hs'
+    rcases hd with ⟨he, _⟩ | ⟨_, hr⟩
+    · cases he
+    · have hsp : splitSlash [51, 48, 48, 47, 45, 49] = [[51, 48, 48], [45, 49]] := by decide
+      rw [hsp] at hr
+      cases hr with
+      | cons h1 _ =>
+        rcases h1.1 with ⟨_, hv⟩ | ⟨t, ht, _⟩ | ⟨t, ht, _⟩
+        · simp [decVal] at hv
+        · simp at ht
+        · simp at ht
+  · rcases hd with ⟨he, _⟩ | ⟨_, hr⟩
+    · cases he
+    · have hsp : splitSlash [34, 51, 48, 48, 47, 45, 49, 34] = [[34, 51, 48, 48], [45, 49, 34]] := by decide
+      rw [hsp] at hr
+      cases hr with
+      | cons h1 _ =>
+        rcases h1.1 with ⟨hdg, _⟩ | ⟨t, ht, _⟩ | ⟨t, ht, _⟩
+        · have := hdg.2 34 (by simp); omega
+        · simp at ht
+        · simp at ht
+
 end Nv.C20
